@@ -460,30 +460,31 @@ class HierarchicalMachine(Machine):
         """Extends transitions.core.Machine.add_model by applying a custom 'to' function to
             the added model.
         """
-        models = [self if mod is self.self_literal else mod for mod in listify(model)]
-        # models which are already registered keep their state; adding them again has no effect
-        new_models = []
-        for mod in models:
-            if mod not in self.models and mod not in new_models:
-                new_models.append(mod)
-        super(HierarchicalMachine, self).add_model(models, initial=initial)
-        for mod in new_models:
-            initial_name = getattr(mod, self.model_attribute)
-            if isinstance(initial_name, Enum):
-                initial_name = self.state_cls.separator.join(self._get_enum_path(initial_name))
-            # initial states set by add_model or machine might contain initial states themselves.
-            if isinstance(initial_name, string_types):
-                initial_states = self._resolve_initial([mod], initial_name.split(self.state_cls.separator))
-            # when initial is set to a (parallel) state, we accept it as it is
-            else:
-                initial_states = initial_name
-            self.set_state(initial_states, mod)
-            if hasattr(mod, 'to'):
-                _LOGGER.warning("%sModel already has a 'to'-method. It will NOT "
-                                "be overwritten by NestedMachine", self.name)
-            else:
-                to_func = partial(self.to_state, mod)
-                setattr(mod, 'to', to_func)
+        with self():  # models are decorated from the root scope, also when a callback of a nested transition adds one
+            models = [self if mod is self.self_literal else mod for mod in listify(model)]
+            # models which are already registered keep their state; adding them again has no effect
+            new_models = []
+            for mod in models:
+                if mod not in self.models and mod not in new_models:
+                    new_models.append(mod)
+            super(HierarchicalMachine, self).add_model(models, initial=initial)
+            for mod in new_models:
+                initial_name = getattr(mod, self.model_attribute)
+                if isinstance(initial_name, Enum):
+                    initial_name = self.state_cls.separator.join(self._get_enum_path(initial_name))
+                # initial states set by add_model or machine might contain initial states themselves.
+                if isinstance(initial_name, string_types):
+                    initial_states = self._resolve_initial([mod], initial_name.split(self.state_cls.separator))
+                # when initial is set to a (parallel) state, we accept it as it is
+                else:
+                    initial_states = initial_name
+                self.set_state(initial_states, mod)
+                if hasattr(mod, 'to'):
+                    _LOGGER.warning("%sModel already has a 'to'-method. It will NOT "
+                                    "be overwritten by NestedMachine", self.name)
+                else:
+                    to_func = partial(self.to_state, mod)
+                    setattr(mod, 'to', to_func)
 
     @property
     def initial(self):
